@@ -339,3 +339,32 @@ package netpoll
 //@   ghost before recv readTrigger#1: assert wrPub && wrLenSeen && wrLenVal < n && wrCloseSeen && wrCloseVal != 1 && wrCloseVal != 2; wrBlocked = true
 //@   loop 1 invariant connok(c) && wrPub && (c.readTimer != nil ==> c.readTimer.tstate == 0) && c.readTimer == old(c.readTimer)
 //@   loop 1 invariant old(c.keychain[closing]) != 0 ==> !wrBlocked
+
+// ---- flushing (C08) ----
+//@ ghost global wfEmptySeen bool
+//@ ghost global wfTimerFired bool
+
+// sendmsg(2)/writev(2) on a vector built by GetBytes (described by the ghost maps vnode/vpos): the kernel takes a
+// prefix of the concatenation and returns its length; on error the count is not positive
+//@ func sendmsg
+//@   trusted raw system call through unsafe pointers (sys_sendmsg_linux.go); assumed kernel contract
+//@   requires len(ivs) >= len(bs)
+//@   ensures n > 0 ==> len(bs) > 0 && n <= vpos[len(bs) - 1] + len(bs[len(bs) - 1]) - vpos[0]
+//@   ensures err != nil ==> n <= 0
+//@   ensures memframe([]byte, bs)
+//@   modifies mem:[]byte, mem:syscall.Iovec
+
+//@ func (*connection).waitFlush
+//@   property C08
+//@   requires connok(c) && (c.writeTimer != nil ==> c.writeTimer.tstate == 0) && c.operator.poll != nil && c.operator.detached >= 0 && c.operator.detached < 2147483000
+//@   ensures c.writeTimer != nil ==> c.writeTimer.tstate == 0
+//@   ensures err != nil ==> errkind(err, ErrWriteTimeout) || errkind(err, ErrConnClosed)
+//@   modifies c.writeTimer, time.Timer.tstate, FDOperator.state, c.operator.detached
+
+//@ func (*connection).flush
+//@   property C04 C08
+//@   requires connok(c) && wf(c.outputBuffer) && c.heldF && (c.writeTimer != nil ==> c.writeTimer.tstate == 0)
+//@   requires c.outputBarrier != nil && len(c.outputBarrier.bs) == 32 && len(c.outputBarrier.ivs) == 32 && c.outputBarrier.bs#arr != c.outputBuffer.caches#arr && c.operator.poll != nil && c.operator.detached >= 0 && c.operator.detached < 2147483000
+//@   ensures c.heldF && wf(c.outputBuffer) && (c.writeTimer != nil ==> c.writeTimer.tstate == 0)
+//@   ensures rpos(c.outputBuffer) >= old(rpos(c.outputBuffer)) && rpos(c.outputBuffer) <= old(fpos(c.outputBuffer)) && fpos(c.outputBuffer) == old(fpos(c.outputBuffer))
+//@   modifies anything
